@@ -19,7 +19,8 @@ def run(ctx):
             k = coll.self_kind(b)
             if k is None:
                 continue
-            v = View(b)
+            import inline
+            v = View(inline.inlined(crate, b))
             bs = BodySites(v)
             fs, ob, kind = coll.run_body(v, bs)
             if label.startswith("catalogue"):
